@@ -273,7 +273,8 @@ theorem insertAt_toks (S : Schema) (sl ins : Slice) (pos : Nat) (frag : List Nod
     (h : sl.insertAt S pos frag = .ok (some ins)) :
     ins.toks = sl.toks.take pos ++ ftoks frag ++ sl.toks.drop pos ∧
     ins.openStart = sl.openStart ∧ ins.openEnd = sl.openEnd := by
-  unfold Slice.insertAt at h
+  rw [insertAt_of_le (insertAt_ok h).1] at h
+  unfold Slice.insertAtIn at h
   split at h
   · rename_i c hc
     simp at h; subst h
